@@ -48,6 +48,7 @@ type Cons struct {
 }
 
 type PermC struct {
+	At              int64 // unix seconds; 0 = the zero time (now)
 	Attr            string
 	SkipHidden      bool
 	NumValue        *IntC
@@ -146,7 +147,7 @@ func (p *PermC) words(o *[]string) {
 		*o = append(*o, "-")
 		return
 	}
-	*o = append(*o, "p", hx(p.Attr), b01(p.SkipHidden))
+	*o = append(*o, "p", strconv.FormatInt(p.At, 10), hx(p.Attr), b01(p.SkipHidden))
 	p.NumValue.words(o)
 	*o = append(*o, b01(p.ValueAll), hx(p.Value))
 	p.ValueMatches.words(o)
@@ -344,6 +345,10 @@ func (p *parser) perm(depth int) *PermC {
 		return nil
 	}
 	c := &PermC{}
+	c.At = p.int()
+	if c.At < 0 {
+		p.bad = true
+	}
 	c.Attr, c.SkipHidden = p.str(), p.flag()
 	c.NumValue = p.intC()
 	c.ValueAll, c.Value = p.flag(), p.str()
@@ -482,6 +487,9 @@ func (p *PermC) toGo() *search.PermanodeConstraint {
 	g := &search.PermanodeConstraint{Attr: p.Attr, SkipHidden: p.SkipHidden, NumValue: p.NumValue.toGo(), ValueAll: p.ValueAll,
 		Value: p.Value, ValueMatches: p.ValueMatches.toGo(), ValueMatchesInt: p.ValueMatchesInt.toGo(), ValueInSet: p.InSet.ToGo(),
 		ModTime: p.ModTime.toGo(), Time: p.Time.toGo()}
+	if p.At != 0 {
+		g.At = time.Unix(p.At, 0).UTC()
+	}
 	if p.Rel != nil {
 		g.Relation = &search.RelationConstraint{Relation: p.Rel.Relation, EdgeType: p.Rel.EdgeType, Any: p.Rel.Any.ToGo(), All: p.Rel.All.ToGo()}
 	}
